@@ -602,10 +602,17 @@ def contract_call(ex, st, contract, args, kwargs, e):
             z = ex.ev_spec(old, node)
             ctx.oblige(st, z, "pre", e, "precondition of %s: %s" % (contract.short, txt))
         # 2. exceptional outcomes (entry-state conditions)
+        from .api import is_exact
+
         raise_conds = []
+        exact_conds = []
         for (clsname, cls, cond) in contract.raises:
             if cond is not None:
                 cz = ex.ev_spec(old, cond[1])
+                if is_exact(contract, clsname):
+                    exact_conds.append(cz)
+                else:
+                    cz = z3.And(cz, ctx.fresh("may_raise_" + clsname, B))
             else:
                 cz = ctx.fresh("may_raise_" + clsname, B)
             raise_conds.append((cls, cz))
@@ -624,6 +631,7 @@ def contract_call(ex, st, contract, args, kwargs, e):
             ex.deliver_raise(est, cls, e)
         if raise_conds:
             post.pc.append(z3.Not(z3.Or(*[c for _, c in raise_conds])))
+        # (for exact classes the normal path additionally knows the condition was false - implied by the above)
         # 4. result + postconditions
         res = fresh_of_type(ex, contract.result, "res_" + contract.short) if contract.result else NONE
         penv = dict(env)
